@@ -659,13 +659,19 @@ fn serialize_request(request: &RequestHeaders) -> io::Result<(Bytes, BodyLength)
         format!(
             "{} {} HTTP/{}.{}\r\n",
             request.method.as_str(),
-            if request.method != http::Method::OPTIONS {
+            // RFC 9112, 3.2.4: "*" stands for an OPTIONS request whose URI has an empty path and
+            // no query (the parsed URI does not tell an empty path from "/"); any other path,
+            // e.g. the one of a CORS preflight, is passed on like for every other method
+            if request.method == http::Method::OPTIONS
+                && request.uri.path() == "/"
+                && request.uri.query().is_none()
+            {
+                "*"
+            } else {
                 request
                     .uri
                     .path_and_query()
                     .map_or(request.uri.path(), |x| x.as_str())
-            } else {
-                "*"
             },
             version_major_digit(request.version),
             version_minor_digit(request.version),
